@@ -7,6 +7,7 @@ import LnnVerif.Model.PropEngine
 import LnnVerif.Model.Fol
 import LnnVerif.Model.Store
 import LnnVerif.Model.Dual
+import LnnVerif.Model.Train
 import Mathlib.Algebra.Order.Field.Rat
 
 open LNN
@@ -312,6 +313,77 @@ def step (c : Ctx) (line : String) : Ctx × String :=
   | ["fresetb"] =>
     let s := c.fstate
     (c.setFState ⟨s.tabs.map fun p => (p.1, p.2.resetBounds)⟩, "ok")
+  | "train" :: rest =>
+    -- Model.train with a scripted optimiser; see harness/train.py for the line format
+    match (kvs rest "steps").bind (·.toNat?), (kvs rest "eps").bind parseRat, (kvs rest "max").bind (·.toNat?),
+          (kvs rest "up").bind (parseCalls "up"), (kvs rest "down").bind (parseCalls "down"),
+          (kvs rest "nodes").bind parseIds, (kvs rest "pnodes").bind parseIds, (kvs rest "negw").bind parseIds,
+          (kvs rest "closs"), (kvs rest "sloss"), (kvs rest "uloss"), (kvs rest "labels"), (kvs rest "script") with
+    | some steps, some eps, some mx, some up, some down, some nodes, some pnodes, some negw, some cl, some sl, some ul,
+      some labels, some script =>
+      let optQ := fun (t : String) => if t = "-" then some (none : Option Q) else (parseRat t).map some
+      let labs : Option (List (Nat × Bounds Q)) :=
+        if labels = "-" then some [] else (labels.splitOn ";").mapM fun t =>
+          match t.splitOn ":" with
+          | [i, b] => do some (← i.toNat?, ← parseB b)
+          | _ => none
+      -- script entries `epoch:id:db:dw,dw`
+      let scr : Option (List (Nat × Nat × Q × List Q)) :=
+        if script = "-" then some [] else (script.splitOn "~").mapM fun t =>
+          match t.splitOn ":" with
+          | [e, i, db, dws] => do
+            let dw ← if dws = "" then some [] else (dws.splitOn ",").mapM parseRat
+            some (← e.toNat?, ← i.toNat?, ← parseRat db, dw)
+          | _ => none
+      match optQ cl, optQ sl, optQ ul, labs, scr with
+      | some cl, some sl, some ul, some labs, some scr =>
+        let skel := c.kb
+        let p0 : Params Nat Q := ⟨fun i => (skel i).ws, fun i => (skel i).bias⟩
+        let opt := fun (e : Nat) (p : Params Nat Q) (_ : State Nat Q) =>
+          (⟨fun i => match scr.find? (fun t => t.1 == e && t.2.1 == i) with
+                     | some t => List.zipWith (· + ·) (p.w i) t.2.2.2
+                     | none => p.w i,
+            fun i => match scr.find? (fun t => t.1 == e && t.2.1 == i) with
+                     | some t => p.b i + t.2.2.1
+                     | none => p.b i⟩ : Params Nat Q)
+        let icfg : InferCfg Nat Q := { up := up, down := down, eps := eps }
+        let cfg : TrainCfg Nat Q := { skel := skel, negW := fun i => negw.contains i, infer := icfg, fuel := mx, opt := opt }
+        let leaves : State Nat Q := fun i =>
+          match c.leaves.find? (·.1 == i) with | some l => l.2 | none => ⟨0, 1⟩
+        let tab := fun (p : Params Nat Q) => (nodes.map fun i => (i, p.w i, p.b i))
+        let untab := fun (l : List (Nat × List Q × Q)) => (⟨fun i => match l.find? (·.1 == i) with
+              | some t => t.2.1 | none => (skel i).ws,
+            fun i => match l.find? (·.1 == i) with | some t => t.2.2 | none => (skel i).bias⟩ : Params Nat Q)
+        let showP := fun (p : Params Nat Q) =>
+          " ".intercalate (pnodes.map fun i =>
+            s!"{i}:{showRat (p.b i)}:{",".intercalate ((p.w i).map showRat)}")
+        let lossesOf := fun (p : Params Nat Q) (s : State Nat Q) =>
+          let kb := kbOf skel p
+          let parts := [cl.map fun k => totalContradictionLoss k kb nodes s,
+                        sl.map fun k => totalSupervisedLoss k labs s,
+                        ul.map fun k => totalUncertaintyLoss k kb nodes s]
+          ",".intercalate (parts.filterMap fun o => o.map showRat)
+        -- run epoch by epoch, re-tabulating parameters (keeps closures shallow)
+        let rec go (e k : Nat) (p : Params Nat Q) (acc : List String) : Params Nat Q × List String :=
+          match k with
+          | 0 => (p, acc)
+          | k + 1 =>
+            let t := epoch cfg e ⟨p, leaves, leaves⟩
+            let p' := untab (tab t.params)
+            go (e + 1) k p' (acc ++ [lossesOf p t.cur ++ ";" ++ showP p'])
+        let (pf, acc) := go 0 steps (untab (tab p0)) []
+        let fin := train cfg 0 ⟨pf, leaves, leaves⟩
+        let c' := c.setState fin.cur
+        (c', "T " ++ " | ".intercalate acc ++ " || " ++ " ".intercalate (nodes.map fun i => showB (c'.state i)))
+      | _, _, _, _, _ => bad
+    | _, _, _, _, _, _, _, _, _, _, _, _, _ => bad
+  | ["proj", negw, b, ws] =>
+    -- `project_params` of one neuron
+    match negw.toNat?, parseRat b, (if ws = "" then some [] else (ws.splitOn ",").mapM parseRat) with
+    | some nw, some b, some ws =>
+      let p := project (fun (_ : Nat) => nw != 0) (⟨fun _ => ws, fun _ => b⟩ : Params Nat Q)
+      (c, s!"p {showRat (p.b 0)} {",".intercalate ((p.w 0).map showRat)}")
+    | _, _, _ => bad
   | ["vclamp", x] =>
     match parseRat x with
     | some x => let d := Dual.valClamp (⟨x, 1⟩ : Dual Q); (c, s!"g {showRat d.val} {showRat d.tan}")
